@@ -1,6 +1,7 @@
 INIT Init
 NEXT Next
 CONSTANTS MaxDepth = 3
+ ExtraLeaves <- NoExtra
  LeafMode = "plain"
  WithPairs = TRUE
 INVARIANT Emit
